@@ -283,6 +283,20 @@ def scenario(ch, cfg):
                 log.append(f"{other} {p} (wrong method) -> {res}")
             elif kind == "redefine":
                 name = ch.pick(sorted(defs), "redef")
+                if ch.draw(3, "via_nonfn") == 0:
+                    # the name holds a plain value for a while (a script being reloaded) and a request arrives inside
+                    # that window.  What that one request gets is not stated by the property and is not judged (beyond
+                    # "at most one invocation"); the requests after the next definition must use that definition.
+                    await on_klong(lambda name=name: srv.klong(f"{name}::0"))
+                    stats["probe_handler_rebound_to_non_function"] += 1
+                    mine = [(m, p) for m in ("GET", "POST") for p, n in routes[m].items() if n == name]
+                    if mine:
+                        m, p = mine[ch.draw(len(mine), "nfroute")]
+                        res, _ = await request(build(m, p, gen_params()))
+                        stats["probe_request_while_handler_is_not_a_function"] += 1
+                        if len(reclog) - n0 > 1:
+                            viol("C20:http:extra-handler-invocations", f"{tag}: {reclog[n0:]}")
+                        log.append(f"{m} {p} while {name}::0 -> {res}")
                 defs[name]["version"] += 1
                 body, raises = ch.pick(BODIES, "newbody")
                 defs[name]["body"], defs[name]["raises"] = body, raises
